@@ -53,7 +53,7 @@ def catch_with_iterable_(sources: Iterable[Observable[_T]]) -> Observable[_T]:
             try:
                 current = next(sources_)
             except StopIteration:
-                if last_exception:
+                if last_exception is not None:
                     observer.on_error(last_exception)
                 else:
                     observer.on_completed()
